@@ -58,6 +58,7 @@ PairwiseCovered ==
   /\ \A w \in {" ", "\n", "\t"} : \E i \in 1..NStyles : Styles[i].wo = w \/ Styles[i].wac = w
 ASSUME PairwiseCovered
 ASSUME DocExamplesOK
+ASSUME CtxsOK
 
 (* ------------------------------ alphabets ----------------------------- *)
 SmallLeaves == {Var("x"), Var("xs"), Var("d"), Str(1), Filt(Var("x"), <<FlA("add", Num("2"))>>)}
@@ -83,24 +84,30 @@ RichLeaves ==
 \* confused with "nothing" - None (variable, literal, failed lookup, item of a list), False, 0, "",
 \* a missing variable - and text with the HTML-special characters & < > ' " (plain and marked safe).
 ValLeaves ==
-  {Var("nn"), Var("None"), Var("f"), Var("False"), Var("True"), Var("z"), Var("es"), Str(6), Var("nope"), Var("hs.1"), Var("dh.u"),
+  {Var("nn"), Var("None"), Var("f"), Var("False"), Var("True"), Var("z"), Var("es"), Str(6), Var("nope"), Var("hs.1"),
    Var("amp"), Var("h"), Var("sf"), Str(10), Var("hs"), Var("dn"), Var("dh"),
    Tpl(9), Tpl(10), Tpl(11), Tpl(12), Tpl(13), Tpl(14), Tpl(15), Tpl(16), Tpl(17), Tpl(18), Tpl(19), Tpl(20),
    Tpl(21), Tpl(22),
+   \* nested strings and leaves that use a loaded library (TagArgs!Loaded)
+   Tpl(23), Tpl(24), Tpl(25), Tpl(26), Tpl(28),
+   Filt(Var("amp"), <<Fl("vfwrap")>>),
+   \* a literal head whose value still depends on the context: literal|filter:variable
+   Filt(Str(4), <<FlA("add", Var("it"))>>), Filt(Str(6), <<FlA("default", Var("amp")), Fl("upper")>>),
+   Filt(Trans(1), <<FlA("add", Var("s"))>>),
    Filt(Var("nn"), <<FlA("default_if_none", Var("amp"))>>),
    Filt(Var("es"), <<FlA("default", Var("nn"))>>),
    Filt(Var("z"), <<FlA("default", Str(10))>>),
    Filt(Var("h"), <<Fl("upper")>>),
    Filt(Var("amp"), <<Fl("escape")>>),
-   Filt(Var("hs"), <<Fl("last")>>),
-   Filt(Var("amp"), <<FlA("cut", Str(4)), FlA("default", Var("h"))>>)}
+   Filt(Var("hs"), <<Fl("last")>>)}
 ValKeys ==
   {Var("nn"), Var("None"), Var("False"), Var("z"), Var("es"), Str(6), Var("hs.1"),
    Var("amp"), Var("h"), Var("sf"), Str(10), Tpl(9), Tpl(10), Tpl(11), Tpl(14), Tpl(21), Tpl(22),
+   Tpl(23), Tpl(26),
    Filt(Var("h"), <<Fl("upper")>>), Filt(Var("hs"), <<Fl("last")>>)}
 \* the core of it, for deeper / wider lists
 \* (a key leaf is pushed like any other leaf: the key alphabets are subsets of the leaf alphabets)
-CoreLeaves == {Var("nn"), Var("z"), Var("amp"), Tpl(9), Var("hs"), Var("dn")}
+CoreLeaves == {Var("nn"), Var("z"), Var("amp"), Tpl(9), Var("hs"), Var("dn"), Filt(Str(4), <<FlA("add", Var("it"))>>)}
 CoreKeys   == {Var("nn"), Var("z"), Var("amp")}
 ASSUME ValKeys \subseteq ValLeaves /\ CoreKeys \subseteq CoreLeaves
 \* "mixed": the small alphabet and the core together (random walks far beyond the BFS bounds)
@@ -154,7 +161,9 @@ Count(s, P(_)) == Cardinality({i \in 1..Len(s) : P(s[i])})
 \* keyword names a complete argument contributes (to keep top-level keys unique: a key given
 \* twice, or by a spread and a keyword, is outside this property - see C11)
 RECURSIVE LitKeys(_, _)
-VarKeys(n) == {Ctx[n].items[i].k.s : i \in {j \in 1..Len(Ctx[n].items) : Ctx[n].items[j].k.t = "str"}}
+\* (the str keys it has in any of the contexts)
+VarKeys(n) == UNION {{Ctxs[k][n].items[i].k.s : i \in {j \in 1..Len(Ctxs[k][n].items) : Ctxs[k][n].items[j].k.t = "str"}}
+                     : k \in 1..Len(Ctxs)}
 OperandKeys(v) ==
   CASE v.t = "var"  -> IF Ctx[v.n].t = "dict" THEN VarKeys(v.n) ELSE {}
     [] v.t = "filt" -> VarKeys("d") \cup VarKeys("d2")
@@ -286,9 +295,15 @@ SerialIsLayout ==
 \* a valid argument list never repeats a keyword and keeps positionals first
 \* a valid argument list never names a keyword twice (the generator keeps keys unique) and
 \* Denote is defined on it
+\* an iteration of {% for it in its %} denotes what the context with the loop variable bound denotes
+\* (the harness values the leaves in LoopCtx(c, i), the structure is DenoteIn(c, args))
+LoopDenotes ==
+  Complete /\ ~bad => \A k \in 1..Len(Ctxs) : \A i \in 1..Len(LoopCtxs[k]) :
+                         DenoteIn(LoopCtxs[k][i], args) = DenoteIn(Ctxs[k], args)
 WellFormed ==
   Complete /\ ~bad =>
     /\ Len(Denote(args).args) + Len(Denote(args).kwargs) >= 0
+    /\ Len(DenoteIn(Ctx2, args).args) + Len(DenoteIn(Ctx2, args).kwargs) >= 0
     /\ \A i, j \in 1..Len(args) : i < j /\ args[i].t # "agg" /\ args[j].t # "agg" => ArgKeys(args[i]) \cap ArgKeys(args[j]) = {}
 
 (* ------------------------------ export -------------------------------- *)
@@ -298,7 +313,8 @@ Out(x) == Serialize(ToJson(x) \o "\n", IOEnv.OUT,
 Export ==
   IF stk = <<>> /\ args = <<>>
   THEN Out([kind |-> "header", ctx |-> Ctx, styles |-> Styles, canon |-> Canon, from |-> StyleFrom, to |-> StyleTo,
-            strtab |-> StrTab, tpltab |-> TplTab])
+            strtab |-> StrTab, tpltab |-> TplTab,
+            ctxs |-> Ctxs, loopctxs |-> LoopCtxs, loopvar |-> LoopVar, loopover |-> LoopOver, loaded |-> Loaded])
   ELSE Complete /\ (AllowInvalid => bad) =>
        Out([kind |-> "case", args |-> args, invalid |-> bad,
             texts |-> [j \in 1..(StyleTo - StyleFrom + 1) |-> Text(args, Styles[StyleFrom + j - 1])],
@@ -306,6 +322,8 @@ Export ==
             lenient |-> [j \in 1..(StyleTo - StyleFrom + 1) |-> "tse" \in Outcomes(args, Styles[StyleFrom + j - 1]) /\ ~bad],
             slot |-> SlotApplies(args),
             expect |-> IF bad THEN NoValues ELSE Denote(args),
+            \* per context: expects[k] is what the tag must hand over when rendered with Ctxs[k]
+            expects |-> [k \in 1..Len(Ctxs) |-> IF bad THEN NoValues ELSE DenoteIn(Ctxs[k], args)],
             devs |-> Devs(args)])
 \* cheap variant used to size a configuration: one short line per case
 ExportCount == Complete /\ (AllowInvalid => bad) => Out([n |-> Len(args), l |-> nl, c |-> nc])
